@@ -13,6 +13,7 @@ import (
 // the successors (nil for blocks that end the function).
 func (fc *fnCtx) execBlock(b *ssa.BasicBlock, st *state, edgeIn map[*ssa.BasicBlock]string) []string {
 	fc.curBlock = b
+	fc.curState = st
 	for _, ins := range b.Instrs {
 		switch i := ins.(type) {
 		case *ssa.DebugRef:
@@ -343,7 +344,7 @@ func (fc *fnCtx) execIndexAddr(st *state, i *ssa.IndexAddr) {
 	case *types.Slice:
 		x := fc.val(i.X)
 		fc.safety(st, "index-in-range", fmt.Sprintf("(and (<= 0 %s) (< %s (slen %s)))", idx.T, idx.T, x.T), i.Pos())
-		fc.env[i] = &Addr{kind: aElem, slice: x, idx: idx.T, typ: t.Elem(), foreign: foreignSlice(i.X, map[ssa.Value]bool{})}
+		fc.env[i] = &Addr{kind: aElem, slice: x, idx: idx.T, typ: t.Elem(), foreign: foreignSlice(i.X, map[ssa.Value]bool{}), rebind: fc.rebindTarget(i.X)}
 	case *types.Pointer:
 		arr, ok := t.Elem().Underlying().(*types.Array)
 		if !ok {
